@@ -118,11 +118,15 @@ fn value_of(digits: &str) -> Option<u128> {
 
 /// the thread count is an option: it is given next to expressions of every output mode and with
 /// -quit (the emitted constant must not depend on them)
-const THREAD_CONTEXTS: [&str; 5] = ["", " -print0", " -name x -print -quit", " -fprint f", " -printf %p"];
+const THREAD_CONTEXTS: [&str; 9] = ["", " -print0", " -name x -print -quit", " -fprint f", " -printf %p", " -fprint0 g -print", " -fprintf f %p\\n", " -printf %p\\n", " ( -name a -o -print0 ) -quit"];
+thread_local! {
+    /// overrides the context the thread-count carrier is written in (None: chosen from the digits)
+    static THREAD_CONTEXT: std::cell::Cell<Option<usize>> = std::cell::Cell::new(None);
+}
 
 fn input_of(c: &Case) -> String {
     let sign = if c.sign == ' ' { String::new() } else { c.sign.to_string() };
-    let ctx = if c.carrier == Carrier::Threads { THREAD_CONTEXTS[(c.digits.len() + c.digits.bytes().map(|b| b as usize).sum::<usize>()) % THREAD_CONTEXTS.len()] } else { "" };
+    let ctx = if c.carrier == Carrier::Threads { THREAD_CONTEXTS[THREAD_CONTEXT.with(|t| t.get()).unwrap_or(c.digits.len() + c.digits.bytes().map(|b| b as usize).sum::<usize>()) % THREAD_CONTEXTS.len()] } else { "" };
     format!("{} {}{}{}{}", c.carrier.keyword(), sign, c.digits, c.carrier.suffix(), ctx)
 }
 
@@ -386,6 +390,32 @@ pub fn judge_pair(a: &Case, b: &Case, k: usize) -> Verdict {
     Verdict::Pass { nt: a.carrier != b.carrier || a.sign != b.sign, class: "two numeric primaries side by side: both exact" }
 }
 
+/// A numeric primary after a context primary (every kind of leaf, a formatted print with each
+/// directive): the constant reaches the program exactly as when the primary stands alone.
+pub fn judge_after(c: &Case, context: &str, joiner: &str) -> Verdict {
+    let Some(v) = value_of(&c.digits) else { return Verdict::Skip("not a number") };
+    if v > c.carrier.field_max() || v.checked_mul(c.carrier.unit()).map(|p| p > u64::MAX as u128).unwrap_or(true) {
+        return Verdict::Skip("out of range (single-primary part)");
+    }
+    let sign = if c.sign == ' ' { String::new() } else { c.sign.to_string() };
+    let text = format!("{context}{joiner}{} {}{}{}", c.carrier.keyword(), sign, c.digits, c.carrier.suffix());
+    let want = (v * c.carrier.unit()).to_string();
+    let prog = match catch(|| parse(&text).map_err(|e| e.to_string()).and_then(|(o, t)| compile(&t, &o).map(|c| c.scheme("/")).map_err(|e| e.to_string()))) {
+        Err(p) => return Verdict::Fail(format!("{text:?}: panic: {p}")),
+        Ok(Err(e)) => return Verdict::Fail(format!("{text:?}: the value is within range and the context is supported, but the input was rejected: {e}")),
+        Ok(Ok(p)) => p,
+    };
+    let forms = match sx::read_all(&prog) {
+        Ok(f) => f,
+        Err(e) => return Verdict::Fail(format!("{text:?}: program does not read: {e}")),
+    };
+    let ints = integer_literals(&forms);
+    if !ints.iter().any(|d| *d == want) {
+        return Verdict::Fail(format!("{text:?}: the constant {want} does not occur in the policy after this context (integer literals there: {ints:?})\n{prog}"));
+    }
+    Verdict::Pass { nt: true, class: "numeric primary after a context primary: exact" }
+}
+
 fn case_json(c: &Case) -> Value {
     json!({"kind": "number", "carrier": c.carrier.json(), "sign": c.sign.to_string(), "digits": c.digits, "input": input_of(c)})
 }
@@ -396,6 +426,9 @@ pub fn replay(case: &Value) -> Result<Verdict, String> {
         sign: case["sign"].as_str().and_then(|s| s.chars().next()).unwrap_or(' '),
         digits: case["digits"].as_str().ok_or("digits")?.to_string(),
     };
+    if let Some(cx) = case.get("context").and_then(|x| x.as_str()) {
+        return Ok(judge_after(&c, cx, case["joiner_text"].as_str().unwrap_or(" ")));
+    }
     if let Some(o) = case.get("second") {
         let d = Case {
             carrier: parse_carrier(o["carrier"].as_str().ok_or("carrier")?).ok_or("unknown carrier")?,
@@ -403,6 +436,12 @@ pub fn replay(case: &Value) -> Result<Verdict, String> {
             digits: o["digits"].as_str().ok_or("digits")?.to_string(),
         };
         return Ok(judge_pair(&c, &d, case["joiner"].as_u64().unwrap_or(0) as usize));
+    }
+    if let Some(k) = case["thread_context"].as_u64() {
+        THREAD_CONTEXT.with(|t| t.set(Some(k as usize)));
+        let v = judge(&c);
+        THREAD_CONTEXT.with(|t| t.set(None));
+        return Ok(v);
     }
     if let Some(k) = case["embedding"].as_u64() {
         return Ok(judge_embedded(&c, k as usize));
@@ -478,6 +517,15 @@ pub fn run(ctx: &Ctx) -> Report {
                 let case = Case { carrier: c, sign, digits: d.clone() };
                 let v = judge(&case);
                 st.record(&v, stable_hash(&case), true, || case_json(&case));
+                if c == Carrier::Threads && sign == ' ' {
+                    // the thread count next to expressions of every output mode
+                    for k in 0..THREAD_CONTEXTS.len() {
+                        THREAD_CONTEXT.with(|t| t.set(Some(k)));
+                        let v = judge(&case);
+                        st.record(&v, stable_hash(&(&case, k)), true, || { let mut j = case_json(&case); j["thread_context"] = json!(k); j });
+                        THREAD_CONTEXT.with(|t| t.set(None));
+                    }
+                }
                 // a third of them also inside a larger expression
                 let h = stable_hash(&case);
                 if h % 3 == 0 {
@@ -496,6 +544,34 @@ pub fn run(ctx: &Ctx) -> Report {
     total.merge(sys);
     total.exhaustive_parts.push("every numeric carrier (46: ids, counts, -threads, -size x 8 unit spellings, 6 time tests x 5 unit spellings, -maxdepth/-mindepth) x values within +-2 of {every power of two up to 2^70, every power of ten up to 10^21, 2^k/unit, 2^64/unit for every unit} x {0,1,30} leading zeros x {none,+,-}, plus 20-40 digit strings".into());
 
+    // every numeric primary after every kind of context primary
+    let contexts: Vec<String> = crate::combo::context_leaves().iter().filter_map(|l| crate::render::canonical(l)).collect();
+    let after = run_shards(cs.len(), |i| {
+        let mut st = Stats::new();
+        let c = cs[i];
+        if matches!(c, Carrier::Threads | Carrier::MaxDepth | Carrier::MinDepth) {
+            return st;
+        }
+        for (k, cx) in contexts.iter().enumerate() {
+            for digits in ["3", "1025"] {
+                for sign in [' ', '+'] {
+                    let joiner = [" ", " , ", " -o ", " -a "][(k + digits.len()) % 4];
+                    let case = Case { carrier: c, sign, digits: digits.to_string() };
+                    let v = judge_after(&case, cx, joiner);
+                    st.record(&v, stable_hash(&(&case, cx, joiner)), true, || {
+                        let mut j = case_json(&case);
+                        j["context"] = json!(cx);
+                        j["joiner_text"] = json!(joiner);
+                        j
+                    });
+                }
+            }
+        }
+        st.samples.truncate(1);
+        st
+    });
+    total.merge(after);
+    total.exhaustive_parts.push(format!("every signed numeric carrier x 2 values x 2 signs after each of {} context primaries (every kind of leaf, a formatted print with each directive)", contexts.len()));
     // pairs of numeric primaries of one attribute (a range, possibly empty or in mixed units)
     let fam: Vec<Vec<Carrier>> = {
         let mut f: Vec<Vec<Carrier>> = vec![cs.iter().cloned().filter(|c| matches!(c, Carrier::Size(_))).collect()];
